@@ -1,5 +1,6 @@
 import FlVerif.Op.Engine
 import FlVerif.Props.C12
+import FlVerif.Lemmas.CodeSessionInputs
 
 /-! # C02 — Batch (vectorised) processing equals row-by-row float processing
 
@@ -50,6 +51,31 @@ theorem rows_length (ov : OutVar α) (col : List (X α)) (s : OutState α) : (ro
     have h1 : (commit (cascadeCfg ov) [x] s).value.length = 1 := by
       unfold commit; cases (cascadeCfg ov).lockPrev <;> simp [fill] <;> split <;> simp
     rw [h1, ih]; omega
+
+/-! ## Tie A (code → model) for the setter of `Engine.input_values` (way (ii) of feeding a batch) -/
+
+/-- **Tie A (code → model).**  `Gen.Code.Engine_set_input_values` is regenerated from the source of the setter of
+    `Engine.input_values` on every run (`fv/pylean.py`; the array is an `Op.Engine.NdArr`: 0-d, 1-D, 2-D with its
+    entries, or a shape of three or more dimensions; `np.full`, `np.atleast_2d`, `.T`, `.shape[1]`, `[:, i]` are the
+    operations of that type; `v.value = …` is the clipping setter).  For every list of input variables and every array
+    it raises the exception class the model `Op.Engine.setInputValues` predicts (`RuntimeError` without input
+    variables, `ValueError` for ≥ 3 dimensions or a wrong number of columns) and otherwise every input variable has
+    received the batch of the model: a single value for all, a vector as one row (one column for a single variable),
+    column `i` of a matrix. -/
+theorem code_setInputValues (ins : List (InVar Rat)) (a : NdArr Rat) :
+    match setInputValues ins a with
+    | .error k => Gen.Code.Engine_set_input_values.run ins a {} = .error k.toPy
+    | .ok cols => ∃ σ, Gen.Code.Engine_set_input_values.run ins a {} = .ok σ ∧ σ.cols = cols :=
+  Op.Engine.code_setInputValues ins a
+
+/-- a matrix with one column per input variable is accepted, and row `j` of what the input variables receive is the
+    input vector of the scalar model on row `j` – the rows `batchRows` processes (`batch_row_independent`) -/
+theorem input_values_rows (e : EngineD Rat) (rows : List (List (X Rat))) (hne : e.inputs ≠ [])
+    (hwf : ∀ r ∈ rows, r.length = e.inputs.length) :
+    ∃ cols, setInputValues e.inputs (.matrix e.inputs.length rows) = .ok cols ∧
+      ∀ (j : Nat) (hj : j < rows.length),
+        cols.map (fun col => col.getD j .nan) = (setInputs e rows[j]).inputs.map (·.value) :=
+  Op.Engine.setInputValues_rows e rows hne hwf
 
 /-! ## non-vacuity -/
 def exampleOut : OutVar ℚ :=
